@@ -16,9 +16,14 @@
 //!   misc  : compat id mismatch, disagreeing patches (documented first-wins), out of range gid, unknown
 //!           table tags, missing URIs
 
+mod audit;
 mod brotli;
 mod model;
 mod patches;
+
+/// `shared-brotli-patch-decoder/src/rust_brotli.rs` is compiled into this crate by path (audit.rs); it
+/// names its error type as `crate::decode_error::DecodeError`.
+pub use shared_brotli_patch_decoder::decode_error;
 
 use incremental_font_transfer::font_patch::PatchingError;
 use incremental_font_transfer::patch_group::{PatchGroup, UriStatus};
@@ -169,6 +174,9 @@ pub struct BaseSpec {
     pub off_size: u8,
     /// gvar: shared tuples placed after the glyph data (out of spec order) instead of before
     pub gvar_tuples_last: bool,
+    /// gvar: no shared tuples at all (sharedTupleCount 0; the client then points the shared tuple offset at the glyph data)
+    #[serde(default)]
+    pub gvar_no_tuples: bool,
 }
 
 /// an offset-array table: per glyph the *stored* bytes (padding included)
@@ -323,7 +331,7 @@ pub fn build_base(spec: &BaseSpec) -> RefFont {
         cff: None,
         cff2: None,
         cff_prefix: vec![],
-        gvar_tuples: vec![0, 42, 0, 13, 0, 25],
+        gvar_tuples: if spec.gvar_no_tuples { vec![] } else { vec![0, 42, 0, 13, 0, 25] },
         others: BTreeMap::new(),
     };
     let slices = |table: u8| -> Vec<Vec<u8>> {
@@ -436,6 +444,8 @@ pub enum RefErr {
     GidBeyondFont,
     MissingTable,
     Incompatible,
+    /// the glyph id list of a patch is not strictly ascending (and the patch lists a table that is processed)
+    UnsortedGids,
 }
 
 fn cff_max(off_size: u8) -> usize {
@@ -522,6 +532,10 @@ pub fn ref_apply_gk(f: &mut RefFont, patches: &[&GkPatch], bits: &[(TagB, usize)
         let Some(t) = slot.as_mut() else {
             return Err(RefErr::MissingTable);
         };
+        // the glyph id list is validated while the data of a processed table is collected
+        if patches.iter().any(|p| p.tables.contains(&tag) && p.gids.windows(2).any(|w| w[0] >= w[1])) {
+            return Err(RefErr::UnsortedGids);
+        }
         ref_patch_table(t, tag, patches, is_cff, can_widen)?;
     }
     for (tag, bit) in bits {
@@ -872,10 +886,14 @@ pub fn build_scenario(sc: &Scenario, ids: &[u32]) -> Built {
             }
         }
         Mapping::F1 => {
+            // note "f1base=K": patch i uses entry K+i+1 (applied bits beyond the first bitmap byte; K >= 255
+            // also switches the glyph map to 16 bit entry indices); entries 1..=K map no glyph
+            let eb: u16 = sc.note.strip_prefix("f1base=").and_then(|v| v.parse().ok()).unwrap_or(0);
             let mut entry_index = vec![0u16; sc.base.lens.len() - 1];
             for i in 0..n {
-                entry_index[i] = i as u16 + 1;
+                entry_index[i] = eb + i as u16 + 1;
             }
+            let n = n + eb as usize;
             let t = T1 {
                 compat: COMPAT_IFT,
                 max_entry_index: n as u16,
@@ -891,9 +909,9 @@ pub fn build_scenario(sc: &Scenario, ids: &[u32]) -> Built {
                 cff2_off,
             };
             let enc = encode_t1(&t);
-            for i in 0..n {
-                uris[i] = expand_uri(&t.template, &Id::Num(i as u32 + 1));
-                bits[i] = enc.applied_start * 8 + i + 1;
+            for i in 0..sc.patches.len() {
+                uris[i] = expand_uri(&t.template, &Id::Num(eb as u32 + i as u32 + 1));
+                bits[i] = enc.applied_start * 8 + eb as usize + i + 1;
             }
             reference.others.insert(IFT, enc.bytes);
         }
@@ -1465,6 +1483,7 @@ pub fn base_specs() -> Vec<BaseSpec> {
         lens: lens.clone(),
         off_size,
         gvar_tuples_last: false,
+                    gvar_no_tuples: false,
     };
     vec![
         mk(BaseKind::GlyfShort, &even, 0),
@@ -1528,20 +1547,44 @@ fn body(run: &Run, replay: Option<&Value>) {
     if std::env::var("C18_GATE_ONLY").is_ok() {
         return;
     }
-    space_gk(&ctx);
-    space_wide(&ctx);
-    space_misc(&ctx);
-    space_tk(&ctx);
-    space_tk_extra(&ctx);
-    space_tk_chain(&ctx);
-    space_real(&ctx);
-    space_corrupt(&ctx);
-    space_declared(&ctx);
-    space_gid_pages(&ctx);
-    space_unsorted(&ctx);
-    if run.tier == Tier::Thorough {
-        space_four(&ctx);
+    let mut walls: Vec<(String, f64)> = vec![];
+    let mut timed = |name: &str, f: &dyn Fn(&Ctx)| {
+        let t0 = std::time::Instant::now();
+        f(&ctx);
+        walls.push((name.to_string(), (t0.elapsed().as_secs_f64() * 10.0).round() / 10.0));
+    };
+    // development aid: C18_ONLY_AUDIT=1 runs only the audit families (never set by ./check)
+    let only_audit = std::env::var("C18_ONLY_AUDIT").is_ok();
+    let skip = |_: &Ctx| {};
+    macro_rules! old {
+        ($f:expr) => {
+            if only_audit { &skip as &dyn Fn(&Ctx) } else { &$f as &dyn Fn(&Ctx) }
+        };
     }
+    timed("gk", old!(space_gk));
+    timed("wide", old!(space_wide));
+    timed("misc", old!(space_misc));
+    timed("tk", old!(space_tk));
+    timed("tk_extra", old!(space_tk_extra));
+    timed("tk_chain", old!(space_tk_chain));
+    timed("real", old!(space_real));
+    timed("corrupt", old!(space_corrupt));
+    timed("declared", old!(space_declared));
+    timed("gid_pages", old!(space_gid_pages));
+    timed("unsorted", old!(space_unsorted));
+    // audit families (round 12 coverage-gap audit, see AUDIT.md)
+    timed("cff_jump", &audit::space_cff_jump);
+    timed("gvar_variants", &audit::space_gvar_variants);
+    timed("mixed_groups", &audit::space_mixed);
+    timed("tk_flags", &audit::space_tk_flags);
+    timed("gid_lists", &audit::space_gid_lists);
+    timed("f1_bits", &audit::space_f1_bits);
+    timed("rust_decoder", &audit::space_rust_decoder);
+    timed("entry_points", &audit::space_entry_points);
+    if run.tier == Tier::Thorough {
+        timed("four", old!(space_four));
+    }
+    run.extra("wall_s_per_space", json!(walls));
     let l = std::mem::take(&mut *ctx.sink.lock().unwrap());
     run.evals(l.evals);
     run.trans(l.applies);
@@ -1588,6 +1631,9 @@ fn replay_case(ctx: &Ctx, case: &Value) {
             run_decl(ctx, &dc, &mut l);
         }
         "corrupt" => space_corrupt(ctx),
+        "mixed" => audit::replay_mixed(ctx, case, &mut l),
+        "rust-decoder" => audit::space_rust_decoder(ctx),
+        "entry-points" => audit::space_entry_points(ctx),
         _ => println!("unknown replay kind {kind}"),
     }
 }
@@ -1707,6 +1753,7 @@ fn space_wide(ctx: &Ctx) {
                     lens: vec![4, 2, 0, 6, 2, big],
                     off_size: 0,
                     gvar_tuples_last: tuples_last,
+                    gvar_no_tuples: false,
                 };
                 for tables in tables_for(kind).iter().take(1) {
                     for gids in [vec![0u32], vec![1, 2], vec![0, 3], vec![5], vec![0, 1, 2]] {
@@ -1742,6 +1789,7 @@ fn space_wide(ctx: &Ctx) {
                     lens: vec![3, 1, 0, 5, 2, big],
                     off_size,
                     gvar_tuples_last: false,
+                    gvar_no_tuples: false,
                 };
                 for gids in [vec![0u32], vec![1, 2], vec![0, 3], vec![5]] {
                     for world in [3usize, 0] {
@@ -1766,7 +1814,7 @@ fn space_wide(ctx: &Ctx) {
         let base_totals: Vec<usize> = if thorough {
             vec![limit3 - 5, limit3 - 4, limit3 - 3, limit3 - 2, limit3]
         } else {
-            vec![limit3 - 4] // quick: the one case that lands exactly on the limit
+            vec![limit3 - 4, limit3 - 3] // quick: exactly on the limit (offSize stays 3) and one byte above (must become 4)
         };
         for total in base_totals {
             let spec = BaseSpec {
@@ -1774,6 +1822,7 @@ fn space_wide(ctx: &Ctx) {
                 lens: vec![3, 1, 0, 5, 2, total - 11],
                 off_size: 3,
                 gvar_tuples_last: false,
+                    gvar_no_tuples: false,
             };
             // +4 bytes; unchanged total (gid 2 stays empty); shrink by one (gid 1: 1 -> 0 bytes)
             let mut patch_sets: Vec<Vec<GkPatch>> = vec![vec![gk_patch(3, &[0], &[tag], false, COMPAT_IFT)]];
@@ -2097,6 +2146,15 @@ fn run_tk(ctx: &Ctx, tc: &TkCase, l: &mut Local) {
                     }
                 }
             }
+            3 | 4 => {
+                // 3: DROP_TABLE | REPLACE_TABLE with a stream; 4: DROP_TABLE with a stream. The drop flag
+                // decides: the table is removed and the stream is never decoded.
+                lens.push(payload.len() as u32 + 64);
+                ops.push((*tag, TableOp::Raw(if *op == 3 { 3 } else { 2 }, payload.clone())));
+                if live {
+                    want.remove(tag);
+                }
+            }
             _ => {
                 lens.push(0);
                 ops.push((*tag, TableOp::Drop));
@@ -2112,7 +2170,7 @@ fn run_tk(ctx: &Ctx, tc: &TkCase, l: &mut Local) {
         "format={} in_iftx={} ops={}",
         tc.format,
         tc.in_iftx,
-        tc.ops.iter().map(|(t, o)| format!("{}:{}", tag_str(t).trim(), ["replace", "diff", "drop"][*o as usize])).collect::<Vec<_>>().join(",")
+        tc.ops.iter().map(|(t, o)| format!("{}:{}", tag_str(t).trim(), ["replace", "diff", "drop", "drop+replace", "drop+stream"][*o as usize])).collect::<Vec<_>>().join(",")
     );
     let decoder = if tc.real { Decoder::real(tc.fault) } else { Decoder::new(tc.fault) };
     let mut map: HashMap<String, UriStatus> = HashMap::new();
@@ -2521,7 +2579,7 @@ fn space_real(ctx: &Ctx) {
     // across the widening limit as well (130 KB bodies are not involved: only the base is big)
     for kind in [BaseKind::GvarShort, BaseKind::GlyfShort] {
         for big in [LIMIT_SHORT - 22, LIMIT_SHORT - 18, LIMIT_SHORT - 14] {
-            let spec = BaseSpec { kind, lens: vec![4, 2, 0, 6, 2, big], off_size: 0, gvar_tuples_last: false };
+            let spec = BaseSpec { kind, lens: vec![4, 2, 0, 6, 2, big], off_size: 0, gvar_tuples_last: false, gvar_no_tuples: false };
             let tables = &tables_for(kind)[0];
             for gids in [vec![0u32], vec![1, 2], vec![5]] {
                 scenarios.push(Scenario {
@@ -2598,7 +2656,7 @@ fn space_corrupt(ctx: &Ctx) {
         for (_, op) in &ops {
             skip.extend([at + 5, at + 6]);
             at += 9 + match op {
-                TableOp::Replace(s) | TableOp::Diff(s) => s.len(),
+                TableOp::Replace(s) | TableOp::Diff(s) | TableOp::Raw(_, s) => s.len(),
                 TableOp::Drop => 0,
             };
         }
@@ -3035,6 +3093,7 @@ fn space_gid_pages(ctx: &Ctx) {
             lens: (0..N).map(|g| if short { (g % 2) * 2 } else { g % 3 }).collect(),
             off_size,
             gvar_tuples_last: false,
+                    gvar_no_tuples: false,
         };
         let tables = &tables_for(kind)[0];
         for s in &sets {
